@@ -121,9 +121,9 @@ CHECKS = {
         "4/C17",
     ),
     "C15": (
-        "runtime monitor: generated CSV and camt.053 statements with hostile free text through the real importer; the tree the importer built is compared with okane's own parse of the text it printed",
+        "runtime monitor: generated CSV, camt.053 and Viseca statements with hostile free text through the real importer; the tree the importer built is compared with okane's own parse of the text it printed",
         "2*10^4 (quick) / 10^6 (thorough) statements (all CSV layouts, conversions, charges, configured precisions; camt batches, charges, references as codes, captured payees), 70% with one of 23 hostile texts (`;`, line breaks, injected entries, leading `(` `*` `!`, tabs, double / leading / trailing spaces, `=`/`@`, braces, wide characters, `Key: value`, `:tag:`, `Key:: expr`, date-like, quotes, `%#|`) in payee, note, category, party names, remittance / additional info or references: the printed text must parse, contain exactly one transaction per built transaction, equal the built tree field by field (numbers by value), never lose decimals and apply configured precisions.",
-        "Trusted: the canonical dump shared with C05. With hostile text the violation class is the text feature alone, so an open finding for a feature masks other failures that need the same feature. Viseca statements are not generated. 7 open findings (text printed raw), 1 fixed (line breaks).",
+        "Trusted: the canonical dump shared with C05. With hostile text the violation class is the text feature alone, so an open finding for a feature masks other failures that need the same feature. 7 open findings (text printed raw), 1 fixed (line breaks).",
         "4/C15",
     ),
 }
